@@ -61,9 +61,18 @@ finally:
 meta["detected"] = meta["check_rc"] == 1
 d = os.path.join(VERIF, "seeded", "%s-%s" % (prop, name))
 os.makedirs(d, exist_ok=True)
-shutil.copy(patch, os.path.join(d, "patch.diff")); shutil.copy(demo, os.path.join(d, "demo.diff"))
+for src, name_ in ((patch, "patch.diff"), (demo, "demo.diff")):
+    if os.path.abspath(src) != os.path.abspath(os.path.join(d, name_)):
+        shutil.copy(src, os.path.join(d, name_))
 if os.path.exists(os.path.join(seed, "notes.txt")):
     meta["needs_to_manifest"] = open(os.path.join(seed, "notes.txt")).read()[:3000]
+    if os.path.abspath(seed) != os.path.abspath(d):
+        shutil.copy(os.path.join(seed, "notes.txt"), os.path.join(d, "notes.txt"))
+elif os.path.exists(os.path.join(d, "meta.json")):
+    try:
+        meta["needs_to_manifest"] = json.load(open(os.path.join(d, "meta.json"))).get("needs_to_manifest", "")
+    except Exception:
+        pass
 meta["ran"] = ["git apply demo.diff; cargo test --lib (pass)", "git apply patch.diff; cargo test --lib (demo fails)",
                "git apply -R demo.diff; cargo test --lib (62 pass)", "git -C /repo apply patch.diff; ./check %s --tier %s; git -C /repo checkout -- ." % (prop, tier)]
 json.dump(meta, open(os.path.join(d, "meta.json"), "w"), indent=1)
